@@ -3097,7 +3097,23 @@ impl Checker {
             if !idle || !up || ws.stop_reason.is_some() {
                 continue;
             }
+            let life_left_ms = world.workers.get(&ws.id.as_num()).and_then(|w| {
+                w.time_limit_ms
+                    .map(|l| (w.start_ms + l).saturating_sub(world.now_ms.get()))
+            });
             for (rq, rv) in &ws.blocked_requests {
+                // (a worker that has too little lifetime left for the time request refuses it
+                // for good: that refusal is never withdrawn, and rightly so)
+                let min_time_ms = core
+                    .requests
+                    .get(rq.as_num() as usize)
+                    .and_then(|rqv| rqv.requests().get(rv.as_num() as usize))
+                    .map(|r| r.min_time().as_millis() as u64)
+                    .unwrap_or(0);
+                if life_left_ms.is_some_and(|l| l < min_time_ms) {
+                    self.probes.hit("refusal_for_lack_of_lifetime_at_rest");
+                    continue;
+                }
                 let stuck = core.tasks.iter().find(|t| {
                     t.resource_rq_id == *rq
                         && matches!(t.state, TaskStateSnapshot::Waiting { unfinished_deps: 0 })
